@@ -13,8 +13,11 @@ import (
 // exportVsAccessors compares the accounts section of an export with what the accessors of the
 // live state answer for every address of the world (signers, multisig wallets, recipients named
 // in World.Accounts): nonce, lock-until block and the balance of every exported coin.
-func exportVsAccessors(w *worlds.World, n *lab.Node, ex *types.AppState) (out [][2]string) {
+func exportVsAccessors(w *worlds.World, n *lab.Node, ex *types.AppState, extra ...types.Address) (out [][2]string) {
 	addrs := map[types.Address]bool{}
+	for _, a := range extra {
+		addrs[a] = true
+	}
 	for _, k := range w.Accounts {
 		addrs[k.Addr] = true
 	}
@@ -47,6 +50,23 @@ func exportVsAccessors(w *worlds.World, n *lab.Node, ex *types.AppState) (out []
 			}
 			if got := acc.GetNonce(a); got != nonce {
 				out = append(out, [2]string{"export|account-nonce", fmt.Sprintf("account %s has nonce %d, the export says %d (exported: %v)", a.String(), got, nonce, e != nil)})
+			}
+			// multisig data: threshold, owners and weights
+			ms := "none"
+			if e != nil && e.MultisigData != nil {
+				ms = fmt.Sprintf("%d %v %v", e.MultisigData.Threshold, e.MultisigData.Weights, e.MultisigData.Addresses)
+			}
+			live := "none"
+			if acc.GetAccount(a).IsMultisig() {
+				m := acc.GetAccount(a).Multisig()
+				var ws []uint64
+				for _, x := range m.Weights {
+					ws = append(ws, uint64(x))
+				}
+				live = fmt.Sprintf("%d %v %v", m.Threshold, ws, m.Addresses)
+			}
+			if live != ms {
+				out = append(out, [2]string{"export|account-multisig", fmt.Sprintf("account %s is the multisig wallet %s, the export says %s (exported: %v)", a.String(), live, ms, e != nil)})
 			}
 			if got := acc.GetLockStakeUntilBlock(a); got != lock {
 				out = append(out, [2]string{"export|account-lock-until", fmt.Sprintf("account %s is locked until %d, the export says %d (exported: %v)", a.String(), got, lock, e != nil)})
